@@ -283,7 +283,7 @@ class Zygote:
             req = self._read(rfd)
             if req is None:
                 return
-            inputs, op = req
+            seq, inputs, op = req
             pr, pw = os.pipe()
             pid = os.fork()
             if pid == 0:
@@ -300,11 +300,26 @@ class Zygote:
             res = self._read(pr)
             os.close(pr)
             os.waitpid(pid, 0)
-            self._write(wfd, res if res is not None else {"reference_died": True})
+            self._write(wfd, (seq, res if res is not None else {"reference_died": True}))
 
     def alone(self, inputs, op):
-        self._write(self.w, (inputs, op))
-        return self._read(self.r)
+        # every request carries a sequence number: if a per-case timeout interrupted an earlier exchange, its late
+        # answer is still in the pipe and must not be taken for the answer to this request
+        import signal
+        self.seq = getattr(self, "seq", 0) + 1
+        # the exchange itself is not interruptible by the per-case alarm (the grandchild has its own 30 s limit)
+        old = signal.pthread_sigmask(signal.SIG_BLOCK, {signal.SIGALRM})
+        try:
+            self._write(self.w, (self.seq, inputs, op))
+            while True:
+                ans = self._read(self.r)
+                if ans is None:
+                    return None
+                seq, res = ans
+                if seq == self.seq:
+                    return res
+        finally:
+            signal.pthread_sigmask(signal.SIG_SETMASK, old)
 
 
 def setup_worker():
